@@ -200,23 +200,30 @@ def commitDItems (toDel toCreate toUpdate : List Handle) : DCommit → List (Han
 
 def kindOrder : List Kind := [.alert, .metric, .component, .operational, .rt]
 
+/-- one of the five single-state dicts through `_handle_state_updates` -/
+def applyKind (c : DCommit) (k : Kind) : DCommit × Option Err :=
+  let r := applySItems c.t (c.tx.sItems.filter (fun p => p.2.new.kind == k))
+  ({ c with t := r.1, res := c.res.putStates k r.2.1 }, r.2.2)
+
+def applyKinds : DCommit → List Kind → DCommit × Option Err
+  | c, [] => (c, none)
+  | c, k :: ks =>
+    match applyKind c k with
+    | (c1, some e) => (c1, some e)
+    | (c1, none) => applyKinds c1 ks
+
+def applyCtx (c : DCommit) : DCommit × Option Err :=
+  let r := applyCItems c.t c.tx.cItems
+  ({ c with t := r.1, res := { c.res with ctx := c.res.ctx ++ r.2.1 } }, r.2.2)
+
 /-- the state dicts in the order alert, metric, context, component, operational, rt -/
 def commitStates (c : DCommit) : DCommit × Option Err :=
-  let doKind := fun (acc : DCommit × Option Err) (k : Kind) =>
-    match acc with
-    | (c, some e) => (c, some e)
-    | (c, none) =>
-      let (t', ups, e) := applySItems c.t (c.tx.sItems.filter (fun p => p.2.new.kind == k))
-      ({ c with t := t', res := c.res.putStates k ups }, e)
-  let r1 := [Kind.alert, Kind.metric].foldl doKind (c, none)
-  match r1 with
+  match applyKinds c [.alert, .metric] with
   | (c1, some e) => (c1, some e)
   | (c1, none) =>
-    let (t', ups, e) := applyCItems c1.t c1.tx.cItems
-    let c2 := { c1 with t := t', res := { c1.res with ctx := c1.res.ctx ++ ups } }
-    match e with
-    | some e => (c2, some e)
-    | none => [Kind.component, Kind.operational, Kind.rt].foldl doKind (c2, none)
+    match applyCtx c1 with
+    | (c2, some e) => (c2, some e)
+    | (c2, none) => applyKinds c2 [.component, .operational, .rt]
 
 def toDelOf (tx : DTx) : List Handle :=
   tx.descr.filterMap (fun p => match p.2.old, p.2.new with | some o, none => some o.handle | _, _ => none)
@@ -267,5 +274,26 @@ def runD (t : Tables) (s : DScript) : Tables × TxResult × Outcome :=
     match commitD t tx with
     | (t', _, some _) => (t', {}, .commitFailed)
     | (t', r, none) => (t', r, if tx.descr.isEmpty then .empty else .committed)
+
+end Sdc.Mdib
+
+namespace Sdc.Mdib
+
+/-- one `with mdib.<kind>_transaction() as mgr:` block of any of the seven kinds -/
+inductive Script
+  | s (x : SScript)
+  | c (x : CScript)
+  | d (x : DScript)
+deriving Repr, DecidableEq
+
+def runScript (t : Tables) : Script → Tables × TxResult × Outcome
+  | .s x => runS t x
+  | .c x => runC t x
+  | .d x => runD t x
+
+/-- a history of transactions; the reports of every step are collected in order -/
+def runHist (t : Tables) : List Script → Tables
+  | [] => t
+  | sc :: rest => runHist (runScript t sc).1 rest
 
 end Sdc.Mdib
